@@ -130,11 +130,88 @@ theorem single_through_double (mag : Nat) (hnorm : 2 ^ 23 ≤ mag) (hfin : mag <
     have h2 : (q - 29 - -1074).toNat * 2 ^ 52 ≤ 1149 * 2 ^ 52 := Nat.mul_le_mul this (Nat.le_refl _)
     omega
 
+/-- a positive integer below `2^53` can be shifted into `[2^52, 2^53)` -/
+theorem exists_shift (m : Nat) (h0 : 0 < m) (h : m < 2 ^ 53) :
+    ∃ s, s ≤ 52 ∧ 2 ^ 52 ≤ m * 2 ^ s ∧ m * 2 ^ s < 2 ^ 53 := by
+  have h1 : 2 ^ m.log2 ≤ m := Nat.log2_self_le (by omega)
+  have h2 : m < 2 ^ (m.log2 + 1) := Nat.lt_log2_self
+  have hl : m.log2 < 53 := (Nat.log2_lt (by omega)).mpr h
+  refine ⟨52 - m.log2, by omega, ?_, ?_⟩
+  · have : 2 ^ 52 = 2 ^ m.log2 * 2 ^ (52 - m.log2) := by rw [← Nat.pow_add]; congr 1; omega
+    rw [this]; exact Nat.mul_le_mul_right _ h1
+  · have : 2 ^ 53 = 2 ^ (m.log2 + 1) * 2 ^ (52 - m.log2) := by rw [← Nat.pow_add]; congr 1; omega
+    rw [this]; exact Nat.mul_lt_mul_of_pos_right h2 (Nat.two_pow_pos _)
+
+theorem decode32_subnormal (mag : Nat) (hsub : mag < 2 ^ 23) : decode binary32 mag = (mag, -149) := by
+  unfold decode
+  have hp : binary32.p - 1 = 23 := rfl
+  have hemin : binary32.emin = -149 := rfl
+  rw [hp, hemin]
+  dsimp only
+  rw [Nat.div_eq_of_lt hsub, Nat.mod_eq_of_lt hsub]
+  simp
+
+set_option exponentiation.threshold 2000 in
+/-- **subnormal_through_double**: a subnormal single `mag · 2^-149` is a normal double; read through the double and
+narrowed once it is that single again -/
+theorem subnormal_through_double (mag : Nat) (h0 : 0 < mag) (hsub : mag < 2 ^ 23) :
+    narrow32 (nearestRat binary64 mag (2 ^ 149)) = mag := by
+  obtain ⟨s, hs, hlo, hhi⟩ := exists_shift mag h0 (by omega)
+  have hemin : binary64.emin = -1074 := rfl
+  have hdec := decode32_subnormal mag hsub
+  have hfin32 : mag < binary32.infBits := by
+    have : binary32.infBits = 255 * 2 ^ 23 := by decide
+    omega
+  have h32 : nearestRat binary32 mag (2 ^ 149) = mag := by
+    apply nearestRat_of_bits binary32 (by decide) mag h0 hfin32 mag (2 ^ 149) (two_pow_pos _)
+    rw [hdec]
+    simp
+  have e1 : (-(-149 - (s : Int))).toNat = 149 + s := by omega
+  have e2 : (-149 - (s : Int)).toNat = 0 := by omega
+  have := narrow32_exact mag (2 ^ 149) (two_pow_pos _) (mag * 2 ^ s) (-149 - (s : Int)) (by rw [hemin]; omega) hlo hhi ?_ ?_
+  · rw [this, h32]
+  · unfold encode
+    have hinf : binary64.infBits = 2047 * 2 ^ 52 := by decide
+    have hp : binary64.p - 1 = 52 := rfl
+    rw [hinf, hp, hemin]
+    have : (-149 - (s : Int) - -1074).toNat ≤ 925 := by omega
+    have h2 : (-149 - (s : Int) - -1074).toNat * 2 ^ 52 ≤ 925 * 2 ^ 52 := Nat.mul_le_mul this (Nat.le_refl _)
+    omega
+  · rw [e1, e2, Nat.pow_add, Nat.pow_zero, Nat.mul_one]
+    generalize (2 : Nat) ^ 149 = A
+    generalize (2 : Nat) ^ s = B
+    ac_rfl
+
 end RsslVerif.Spec.Dec2Bin
 
 namespace RsslVerif.Model.LitFormat
 open RsslVerif.Model.Lexer RsslVerif.Spec RsslVerif.Gen.LexTables
 set_option linter.unusedSimpArgs false
+
+set_option exponentiation.threshold 2000 in
+/-- **narrow32_widen**: `(v as f64) as f32 = v` for every finite single (zero, subnormal, normal): the double with the
+same value narrows back to the single -/
+theorem narrow32_widen (mag : Nat) (hfin : mag < Dec2Bin.binary32.infBits) : Dec2Bin.narrow32 (widen32 mag) = mag := by
+  by_cases h0 : mag = 0
+  · subst h0; decide
+  · by_cases hsub : mag < 2 ^ 23
+    · unfold widen32
+      rw [Dec2Bin.decode32_subnormal mag hsub]
+      simp only [show ¬ ((0 : Int) ≤ -149) by omega, if_false]
+      have : (-(-149 : Int)).toNat = 149 := by omega
+      rw [this]
+      exact Dec2Bin.subnormal_through_double mag (by omega) hsub
+    · unfold widen32
+      dsimp only
+      split
+      · rename_i hq
+        apply Dec2Bin.single_through_double mag (by omega) hfin _ 1 (by omega)
+        have : (-(Dec2Bin.decode Dec2Bin.binary32 mag).2).toNat = 0 := by omega
+        rw [this]
+      · rename_i hq
+        apply Dec2Bin.single_through_double mag (by omega) hfin _ _ (Dec2Bin.two_pow_pos _)
+        have : (Dec2Bin.decode Dec2Bin.binary32 mag).2.toNat = 0 := by omega
+        rw [this]; simp
 
 /-- the suffix type the lexer reads back from the suffix `format_literal` writes (`none` for an integer kind) -/
 def Kind.floatType? : Kind → Option (Option FloatType)
@@ -271,16 +348,62 @@ theorem printed_token (k : Kind) (ty : Option FloatType) (hk : k.floatType? = so
   rw [htok, h3] at hp
   exact token_of_float_ok inc (digitByte_range l (h1 l (by simp))) hp
 
+/-- a plain decimal text: the digits `L`, and `.` followed by the digits `R` when there are any -/
+def plainDec (L R : List Nat) : Bytes := L.map Lexer.digitByte ++ (if R = [] then [] else 46 :: R.map Lexer.digitByte)
+
+theorem noDigitHead_nil : NoDigitHead [] := fun _ _ h => by cases h
+
+theorem noDigitHead_dot (r : Bytes) : NoDigitHead (46 :: r) := by
+  intro b r' h
+  simp at h
+  rw [← h.1]; decide
+
+/-- `parsePlain` reads a plain decimal text back into its digit runs -/
+theorem parsePlain_plainDec (L R : List Nat) (hL : L ≠ []) (hdig : ∀ d ∈ L ++ R, d < 10) :
+    parsePlain (plainDec L R) = some (L, R) := by
+  have hLd : ∀ d ∈ L, d < 10 := fun d hd => hdig d (List.mem_append_left _ hd)
+  have hRd : ∀ d ∈ R, d < 10 := fun d hd => hdig d (List.mem_append_right _ hd)
+  unfold parsePlain plainDec
+  by_cases hR : R = []
+  · subst hR
+    rw [if_pos rfl, spanDigits_digits L hLd [] noDigitHead_nil]
+    cases L with
+    | nil => exact absurd rfl hL
+    | cons l L' => rfl
+  · rw [if_neg hR, spanDigits_digits L hLd _ (noDigitHead_dot _)]
+    have h2 : spanDigits (R.map Lexer.digitByte) = (R, []) := by
+      have := spanDigits_digits R hRd [] noDigitHead_nil
+      simpa using this
+    cases L with
+    | nil => exact absurd rfl hL
+    | cons l L' =>
+      cases R with
+      | nil => exact absurd rfl hR
+      | cons r R' =>
+        simp only []
+        rw [h2]
+
+/-- the single-precision kinds are the ones stored as binary32 -/
+theorem kind_single (k : Kind) (ty : Option FloatType) (hk : k.floatType? = some ty) :
+    (k = .f16 ∨ k = .f32) ↔ k.fmt = Dec2Bin.binary32 := by
+  cases k <;> simp [Kind.floatType?] at hk <;> simp [Kind.fmt, Dec2Bin.binary64, Dec2Bin.binary32]
+
 /-- how `fmtFloat` continues for a finite non-negative value that is not printed by name -/
 theorem fmtFloat_finite (k : Kind) (ty : Option FloatType) (hk : k.floatType? = some ty) (msl : Bool)
     (mag : Nat) (hfin : mag < k.fmt.infBits) (hmax : ¬ (k = .f32 ∧ msl = true ∧ mag = k.fmt.infBits - 1))
-    (disp : Bytes) :
-    fmtFloat k msl mag disp =
+    (disp disp64 : Bytes) :
+    fmtFloat k msl mag disp disp64 =
       (match wholeValue? k.fmt mag with
        | some n =>
          if n ≤ 2 ^ 63 then .ok (decText (Nat.min n (2 ^ 63 - 1)) ++ dotZero ++ k.suffix)
          else .ok (disp ++ dotZero ++ k.suffix)
-       | none => .ok (disp ++ k.suffix)) := by
+       | none =>
+         if k = .f16 ∨ k = .f32 then
+           (match roundTwice? false mag disp with
+            | some true => .ok (disp64 ++ k.suffix)
+            | some false => .ok (disp ++ k.suffix)
+            | none => .error notPlain)
+         else .ok (disp ++ k.suffix)) := by
   obtain ⟨_, hfmt, _, _, _⟩ := kind_facts k ty hk
   have hsb := signBit_gt k.fmt hfmt
   have hmod : mag % signBit k.fmt = mag := Nat.mod_eq_of_lt (by omega)
@@ -300,13 +423,13 @@ integer (`decDigits_spec`), the nearest double of an exactly representable value
 (`nearestRat_of_bits`), and narrowing it once to single is exact (`single_through_double`). -/
 theorem fmtFloat_whole_lexes (k : Kind) (ty : Option FloatType) (hk : k.floatType? = some ty) (msl : Bool)
     (mag n : Nat) (hfin : mag < k.fmt.infBits) (hmax : ¬ (k = .f32 ∧ msl = true ∧ mag = k.fmt.infBits - 1))
-    (hw : wholeValue? k.fmt mag = some n) (hn : n ≤ 2 ^ 63) (disp : Bytes)
+    (hw : wholeValue? k.fmt mag = some n) (hn : n ≤ 2 ^ 63) (disp disp64 : Bytes)
     (rest : Bytes) (hb : Boundary rest) (inc : Bool) :
-    ∃ text, fmtFloat k msl mag disp = .ok text ∧
+    ∃ text, fmtFloat k msl mag disp disp64 = .ok text ∧
       tokenIntermediate (text ++ rest) inc = .ok (rest, floatTok k mag) := by
   obtain ⟨hsfx, _, _, _, _⟩ := kind_facts k ty hk
   refine ⟨decText (Nat.min n (2 ^ 63 - 1)) ++ dotZero ++ k.suffix, ?_, ?_⟩
-  · rw [fmtFloat_finite k ty hk msl mag hfin hmax disp, hw]; simp [hn]
+  · rw [fmtFloat_finite k ty hk msl mag hfin hmax disp disp64, hw]; simp [hn]
   obtain ⟨d, ds, hdd, hlt, hval, _, _⟩ := decDigits_spec (Nat.min n (2 ^ 63 - 1))
   have htxt : decText (Nat.min n (2 ^ 63 - 1)) = (d :: ds).map Lexer.digitByte := by
     unfold decText; rw [hdd]; rfl
@@ -337,53 +460,105 @@ theorem fmtFloat_whole_lexes (k : Kind) (ty : Option FloatType) (hk : k.floatTyp
           Dec2Bin.nearestRat Dec2Bin.binary64 (2 ^ 63) 1 := by decide
       rw [hsame]; exact hB
 
-/-- **fmtFloat_lexes**: what `format_literal` prints for a finite non-negative float — `<v as i64>.0`, `<Display>.0` or
-`<Display>`, each followed by the suffix — followed by a boundary, is exactly one token: the float literal of the same
-kind with the same bits.  About Rust's `Display` it is assumed that it writes plain decimal digits, with a `.` exactly
-for non-integers, and that the nearest double of those digits (narrowed once for the single-precision kinds) is the
-value (`hrt`); the branch that prints through `v as i64` needs no assumption (`fmtFloat_whole_lexes`). -/
+/-- **fmtFloat_lexes**: what `format_literal` prints for a finite non-negative float — `<v as i64>.0`, `<Display>.0`,
+`<Display>`, or (a single whose `Display` digits round twice) `<Display of the value as a double>`, each followed by
+the suffix — followed by a boundary, is exactly one token: the float literal of the same kind with the same bits.
+About Rust's `Display` it is assumed that it writes plain decimal digits, with a `.` exactly for non-integers.  That the
+nearest double of those digits (narrowed once for the single-precision kinds) is the value (`hrt`) is assumed only for
+the double-precision kinds and for whole singles above `2^63` (printed `<Display>.0`): for every other single
+`format_literal` tests it (`f32_digits_round_twice`, fix 265a080) and, when it fails, prints the digits of the same value
+as a double, about which it is assumed (`h64`) that they are a plain decimal with a `.` whose nearest double is that
+double (`widen32 mag`) — narrowing it once gives the single back (`narrow32_widen`).  The branch that prints through
+`v as i64` needs no assumption (`fmtFloat_whole_lexes`). -/
 theorem fmtFloat_lexes (k : Kind) (ty : Option FloatType) (hk : k.floatType? = some ty) (msl : Bool)
     (mag : Nat) (hfin : mag < k.fmt.infBits) (hmax : ¬ (k = .f32 ∧ msl = true ∧ mag = k.fmt.infBits - 1))
     (disp : Bytes) (L R : List Nat) (hLne : L ≠ []) (hdig : ∀ d ∈ L ++ R, d < 10)
-    (htext : disp = L.map Lexer.digitByte ++ (if R = [] then [] else 46 :: R.map Lexer.digitByte))
+    (htext : disp = plainDec L R)
     (hdot : R = [] ↔ (wholeValue? k.fmt mag).isSome)
-    (hrt : narrowOnce ty (Dec2Bin.nearest64 (L ++ R) (0 - (R.length : Nat))) = mag)
-    (text : Bytes) (h : fmtFloat k msl mag disp = .ok text) (rest : Bytes) (hb : Boundary rest) (inc : Bool) :
+    (hrt : k.fmt = Dec2Bin.binary64 ∨ (wholeValue? k.fmt mag).isSome →
+      narrowOnce ty (Dec2Bin.nearest64 (L ++ R) (0 - (R.length : Nat))) = mag)
+    (disp64 : Bytes) (L2 R2 : List Nat)
+    (h64 : k.fmt = Dec2Bin.binary32 → wholeValue? k.fmt mag = none →
+      Dec2Bin.narrow32 (Dec2Bin.nearest64 (L ++ R) (0 - (R.length : Nat))) ≠ mag →
+      L2 ≠ [] ∧ R2 ≠ [] ∧ (∀ d ∈ L2 ++ R2, d < 10) ∧ disp64 = plainDec L2 R2 ∧
+      Dec2Bin.nearest64 (L2 ++ R2) (0 - (R2.length : Nat)) = widen32 mag)
+    (text : Bytes) (h : fmtFloat k msl mag disp disp64 = .ok text) (rest : Bytes) (hb : Boundary rest) (inc : Bool) :
     tokenIntermediate (text ++ rest) inc = .ok (rest, floatTok k mag) := by
-  obtain ⟨hsfx, _, _, _, _⟩ := kind_facts k ty hk
+  obtain ⟨hsfx, hfmt, _, _, h32⟩ := kind_facts k ty hk
   cases hw : wholeValue? k.fmt mag with
   | none =>
-    rw [fmtFloat_finite k ty hk msl mag hfin hmax disp, hw] at h
-    simp at h
-    subst h
     have hR : R ≠ [] := by
       intro hR; have := hdot.mp hR; rw [hw] at this; cases this
-    cases L with
-    | nil => exact absurd rfl hLne
-    | cons l L' =>
-      cases R with
-      | nil => exact absurd rfl hR
-      | cons r R' =>
-        rw [htext, hsfx]
-        simp only [if_neg hR, List.append_assoc, List.cons_append]
-        exact printed_token k ty hk mag rest hb inc l L' r R' (fun d hd => hdig d (List.mem_append_left _ hd))
-          (fun d hd => hdig d (List.mem_append_right _ hd)) hrt
+    -- the text `<digits>.<digits><suffix>` of digit runs whose reading is the value
+    have key : ∀ (A B : List Nat), A ≠ [] → B ≠ [] → (∀ d ∈ A ++ B, d < 10) →
+        narrowOnce ty (Dec2Bin.nearest64 (A ++ B) (0 - (B.length : Nat))) = mag →
+        tokenIntermediate ((plainDec A B ++ k.suffix) ++ rest) inc = .ok (rest, floatTok k mag) := by
+      intro A B hA hB hAB hval
+      cases A with
+      | nil => exact absurd rfl hA
+      | cons a A' =>
+        cases B with
+        | nil => exact absurd rfl hB
+        | cons b B' =>
+          unfold plainDec
+          rw [hsfx]
+          simp only [if_neg hB, List.append_assoc, List.cons_append]
+          exact printed_token k ty hk mag rest hb inc a A' b B' (fun d hd => hAB d (List.mem_append_left _ hd))
+            (fun d hd => hAB d (List.mem_append_right _ hd)) hval
+    rw [fmtFloat_finite k ty hk msl mag hfin hmax disp disp64, hw] at h
+    by_cases hs : k = .f16 ∨ k = .f32
+    · have hf : k.fmt = Dec2Bin.binary32 := (kind_single k ty hk).mp hs
+      have hrt2 : roundTwice? false mag disp =
+          some (Dec2Bin.narrow32 (Dec2Bin.nearest64 (L ++ R) (0 - (R.length : Nat))) != mag) := by
+        unfold roundTwice?
+        simp only [Bool.false_eq_true, if_false]
+        rw [htext, parsePlain_plainDec L R hLne hdig]
+      simp only [if_pos hs, hrt2] at h
+      by_cases heq : Dec2Bin.narrow32 (Dec2Bin.nearest64 (L ++ R) (0 - (R.length : Nat))) = mag
+      · have hb' : (Dec2Bin.narrow32 (Dec2Bin.nearest64 (L ++ R) (0 - (R.length : Nat))) != mag) = false := by
+          simpa using heq
+        rw [hb'] at h
+        simp at h
+        subst h
+        rw [htext]
+        exact key L R hLne hR hdig (by rw [h32 hf]; exact heq)
+      · have hb' : (Dec2Bin.narrow32 (Dec2Bin.nearest64 (L ++ R) (0 - (R.length : Nat))) != mag) = true := by
+          simpa using heq
+        rw [hb'] at h
+        simp at h
+        subst h
+        obtain ⟨hL2, hR2, hd2, ht2, hv2⟩ := h64 hf hw heq
+        rw [ht2]
+        refine key L2 R2 hL2 hR2 hd2 ?_
+        rw [h32 hf, hv2]
+        exact narrow32_widen mag (by rw [← hf]; exact hfin)
+    · have hf : k.fmt = Dec2Bin.binary64 := by
+        rcases hfmt with hf | hf
+        · exact hf
+        · exact absurd ((kind_single k ty hk).mpr hf) hs
+      simp only [if_neg hs] at h
+      simp at h
+      subst h
+      rw [htext]
+      exact key L R hLne hR hdig (hrt (Or.inl hf))
   | some n =>
     by_cases hn : n ≤ 2 ^ 63
-    · obtain ⟨t, ht, hlex⟩ := fmtFloat_whole_lexes k ty hk msl mag n hfin hmax hw hn disp rest hb inc
+    · obtain ⟨t, ht, hlex⟩ := fmtFloat_whole_lexes k ty hk msl mag n hfin hmax hw hn disp disp64 rest hb inc
       rw [ht] at h
       simp at h
       subst h
       exact hlex
-    · rw [fmtFloat_finite k ty hk msl mag hfin hmax disp, hw] at h
+    · rw [fmtFloat_finite k ty hk msl mag hfin hmax disp disp64, hw] at h
       simp [hn] at h
       subst h
       have hR : R = [] := hdot.mpr (by rw [hw]; rfl)
       subst hR
+      have hrt' := hrt (Or.inr (by rw [hw]; rfl))
       cases L with
       | nil => exact absurd rfl hLne
       | cons l L' =>
         rw [htext, hsfx]
+        unfold plainDec
         have hstr : dotZero = [46, 48] := rfl
         simp only [if_pos, hstr, List.append_assoc, List.cons_append, List.nil_append, List.append_nil]
         have h48 : (48 : UInt8) = Lexer.digitByte 0 := rfl
@@ -394,15 +569,15 @@ theorem fmtFloat_lexes (k : Kind) (ty : Option FloatType) (hk : k.floatType? = s
         · show narrowOnce ty (Dec2Bin.nearest64 ((l :: L') ++ [0]) (0 - ((1 : Nat) : Int))) = mag
           have hm1 : (0 - ((1 : Nat) : Int)) = -1 := by omega
           rw [hm1, Dec2Bin.nearest64_append_zero _ hL']
-          simpa using hrt
+          simpa using hrt'
 
 
 
 /-- **fmtFloat_inf_lexes**: `+∞` is printed for HLSL as `1.#INF<suffix>`, and that text followed by a boundary is exactly
 one token: the float literal of the same kind holding `+∞`. -/
-theorem fmtFloat_inf_lexes (k : Kind) (ty : Option FloatType) (hk : k.floatType? = some ty) (disp : Bytes)
+theorem fmtFloat_inf_lexes (k : Kind) (ty : Option FloatType) (hk : k.floatType? = some ty) (disp disp64 : Bytes)
     (rest : Bytes) (hb : Boundary rest) (inc : Bool) :
-    ∃ text, fmtFloat k false k.fmt.infBits disp = .ok text ∧
+    ∃ text, fmtFloat k false k.fmt.infBits disp disp64 = .ok text ∧
       tokenIntermediate (text ++ rest) inc = .ok (rest, floatTok k k.fmt.infBits) := by
   obtain ⟨hsfx, hfmt, htok, h64, h32⟩ := kind_facts k ty hk
   have hsb := signBit_gt k.fmt hfmt
@@ -482,9 +657,9 @@ digits of the magnitude) is printed as `-` followed by exactly the text of the m
 magnitude is printed exactly (`-9223372036854775808.0`) while `+2^63` saturates. -/
 theorem fmtFloat_negative (k : Kind) (ty : Option FloatType) (hk : k.floatType? = some ty) (msl : Bool)
     (mag : Nat) (hfin : mag < k.fmt.infBits) (hmax : ¬ (k = .f32 ∧ msl = true ∧ mag = k.fmt.infBits - 1))
-    (h63 : wholeValue? k.fmt mag ≠ some (2 ^ 63)) (disp : Bytes) :
-    fmtFloat k msl (signBit k.fmt + mag) (45 :: disp) =
-      (match fmtFloat k msl mag disp with
+    (h63 : wholeValue? k.fmt mag ≠ some (2 ^ 63)) (disp disp64 : Bytes) :
+    fmtFloat k msl (signBit k.fmt + mag) (45 :: disp) (45 :: disp64) =
+      (match fmtFloat k msl mag disp disp64 with
        | .ok t => .ok (45 :: t)
        | .error e => .error e) := by
   obtain ⟨_, hfmt, _, _, _⟩ := kind_facts k ty hk
@@ -492,7 +667,7 @@ theorem fmtFloat_negative (k : Kind) (ty : Option FloatType) (hk : k.floatType? 
   have hmod : (signBit k.fmt + mag) % signBit k.fmt = mag := by
     rw [Nat.add_mod_left]; exact Nat.mod_eq_of_lt (by omega)
   have hneg : signBit k.fmt ≤ signBit k.fmt + mag := by omega
-  rw [fmtFloat_finite k ty hk msl mag hfin hmax disp]
+  rw [fmtFloat_finite k ty hk msl mag hfin hmax disp disp64]
   unfold fmtFloat
   simp only [hmod, hneg, decide_true, Nat.not_lt.mpr (Nat.le_of_lt hfin), Nat.ne_of_lt hfin, if_false]
   simp only [Bool.true_eq_false, false_and, and_false, if_false, and_true]
@@ -505,7 +680,16 @@ theorem fmtFloat_negative (k : Kind) (ty : Option FloatType) (hk : k.floatType? 
     simp [decText, decDigits, decDigitsRev, digitByte, dotZero]
   · rw [if_neg h0]
     cases hw : wholeValue? k.fmt mag with
-    | none => simp
+    | none =>
+      have hrt : roundTwice? true mag (45 :: disp) = roundTwice? false mag disp := by
+        simp [roundTwice?]
+      simp only [List.cons_append, hrt]
+      by_cases hs : k = .f16 ∨ k = .f32
+      · simp only [if_pos hs]
+        cases roundTwice? false mag disp with
+        | none => rfl
+        | some b => cases b <;> rfl
+      · simp only [if_neg hs]
     | some n =>
       have hn63 : n ≠ 2 ^ 63 := by intro h; subst h; exact h63 hw
       by_cases hn : n ≤ 2 ^ 63
